@@ -13,10 +13,17 @@ What is proved here (for all inputs, on the hand-written models that the harness
   class of both versions (`Proofs/C08Blocks.lean`, `C08Nested.lean`, `C08Blocks2.lean`, `C08Elements.lean`), tied to
   the regenerated handler tables by `Proofs/C08Tables.lean`; `C08_roundtrip_model` is the document-level statement.
 
+* the CHNA <-> audioTrackUID transfer of `chna.py` (`Model/ChnaTransfer.lean`): `chna_transfer_roundtrip`,
+  `chna_rows_in_document_order`, `chna_conflict_rejected`, `chna_only_document`, `chna_chunk_roundtrip`,
+  `chna_transfer_through_bytes`, with the excluded points as `chna_excluded_points_transfer`;
+* the id map and reference resolution of `adm.py` and the element classes (`Model/AdmRefs.lean`): `lookup_unique`,
+  `duplicate_id_rejected` (and `duplicate_across_classes_not_rejected`), `resolve_total_on_closed`,
+  `resolve_dangling_rejected`, and the composition with the XML layer `resolve_then_ids_roundtrip`.
+
 What is NOT proved (hence the summary is still `C08_partial`): `{:.5f}` printing / `float()` of arbitrary doubles
-(values are on the 1e-5 grid), lxml parsing and serialisation (the tree is abstract), reference resolution and
-duplicate-id rejection in `adm.py`, `populate_chna_chunk` / `load_chna_chunk`, the AudioStreamFormatWrapper
-bookkeeping.  Those are covered by the document-level search in `harness/c08.py` only.
+(values are on the 1e-5 grid), lxml parsing and serialisation and bytes <-> str (the tree is abstract, CHNA strings are
+7-bit), attrs validators other than the ones stated, the AudioStreamFormatWrapper bookkeeping.  Those are covered by
+the document-level search in `harness/c08.py` only.
 -/
 import Earverif.Proofs.C08TimeRat
 import Earverif.Proofs.C08Ids
@@ -26,6 +33,9 @@ import Earverif.Proofs.C08Leaf
 import Earverif.Proofs.C08Custom
 import Earverif.Proofs.C08Blocks
 import Earverif.Proofs.C08Tables
+import Earverif.Proofs.C08Chna
+import Earverif.Proofs.C08Refs
+import Earverif.Model.AdmRefsDoc
 
 namespace Earverif.C08
 open Earverif.Digits Earverif.TimeFormat Earverif.GenIds
@@ -821,13 +831,453 @@ example : DocValid true
 
 end Document
 
+section Transfer
+open Earverif.Chna Earverif.ChnaTransfer
+
+/-! ## CHNA <-> audioTrackUID transfer (`chna.py`) -/
+
+/-- **Transfer round trip.**  (1) For a well-formed document (`WFDoc`: distinct UIDs; every track UID with a track
+index, exactly one of audioTrackFormat / audioChannelFormat of the kind its id announces, references that
+`lookup_element` finds again, nothing pending, not the reserved UID): `populate_chna_chunk` writes rows, and
+`load_chna_chunk` of these rows into ANY copy of the document without track information (no index; per track UID the
+format / pack references kept as parsed from AXML or dropped) restores every track UID.  (2) For a well-formed chunk
+that names the elements by their stored ids: loading it into a document without audioTrackUIDs and populating again
+reproduces the chunk. -/
+theorem chna_transfer_roundtrip (lookup : Bytes → Option Bytes) :
+    (∀ tracks, WFDoc lookup tracks → ∃ rows, populateChna tracks = .ok rows ∧
+      ∀ kf kp : TrackUID → Bool, loadChna lookup (tracks.map fun t => forget (kf t) (kp t) t) rows = .ok tracks) ∧
+    (∀ rows, WFChunk lookup rows → (∀ e ∈ rows, up e.audioTrackUID = e.audioTrackUID) →
+      (∀ e ∈ rows, lookup (up e.audioTrackFormatIDRef) = some e.audioTrackFormatIDRef) →
+      (∀ e ∈ rows, ∀ p, e.audioPackFormatIDRef = some p → lookup p = some p) →
+      ∃ ts, loadChna lookup [] rows = .ok ts ∧ populateChna ts = .ok rows) := by
+  constructor
+  · intro tracks h
+    obtain ⟨rows, hrows, _⟩ := transfer_roundtrip lookup tracks h (fun _ => true) (fun _ => true)
+    refine ⟨rows, hrows, fun kf kp => ?_⟩
+    obtain ⟨rows', hrows', hload⟩ := transfer_roundtrip lookup tracks h kf kp
+    rw [hrows] at hrows'; injection hrows' with hrows'; subst hrows'
+    exact hload
+  · intro rows h hu hr hp
+    exact ⟨_, chna_only lookup rows h, populate_chna_only lookup rows hu hr hp⟩
+
+/-- the lookup of a document whose other elements are two channel formats, a track format (common-definition style id
+with a lower-case hex digit) and a pack format -/
+def exLookup : Bytes → Option Bytes :=
+  chainLookup [some (asciiBytes "AC_00031001"), some (asciiBytes "AC_00031002"), some (asciiBytes "AT_0001000a_01"),
+    some (asciiBytes "AP_00031001")] []
+
+/-- a BS.2076-2 style track UID (audioChannelFormat reference, pack) and a BS.2076-1 style one (audioTrackFormat
+reference, no pack) -/
+def exTracks : List TrackUID :=
+  [⟨asciiBytes "ATU_00000001", some 2, none, some (asciiBytes "AC_00031001"), some (asciiBytes "AP_00031001"), none, none, none⟩,
+   ⟨asciiBytes "ATU_00000002", some 1, some (asciiBytes "AT_0001000a_01"), none, none, none, none, none⟩]
+
+/-- non-vacuity of `WFDoc` / `WFChunk`, and the rows written for the example -/
+example : WFDoc exLookup exTracks ∧
+    populateChna exTracks = .ok [⟨2, asciiBytes "ATU_00000001", asciiBytes "AC_00031001", some (asciiBytes "AP_00031001")⟩,
+      ⟨1, asciiBytes "ATU_00000002", asciiBytes "AT_0001000a_01", none⟩] := by
+  refine ⟨⟨by decide, ?_⟩, by decide⟩
+  intro t ht
+  simp only [exTracks, List.mem_cons, List.not_mem_nil, or_false] at ht
+  rcases ht with rfl | rfl
+  · exact ⟨⟨2, rfl⟩, ⟨rfl, rfl, rfl⟩, Or.inr ⟨_, rfl, rfl, by decide, by decide⟩,
+      fun p hp => (by injection hp with hp; subst hp; decide), by decide⟩
+  · exact ⟨⟨1, rfl⟩, ⟨rfl, rfl, rfl⟩, Or.inl ⟨_, rfl, rfl, by decide, by decide⟩, fun p hp => (by cases hp), by decide⟩
+
+/-- **Rows in document order.**  `populate_chna_chunk` does not sort or filter: the rows are the document's track UIDs
+in order, each with its own UID and (1-based) index; hence distinct UIDs in the document give distinct UIDs in the
+chunk.  (A track UID without index makes the whole call raise — see `chna_excluded_points_transfer`.) -/
+theorem chna_rows_in_document_order (tracks : List TrackUID) (rows : List Entry) (h : populateChna tracks = .ok rows) :
+    rows.map (·.audioTrackUID) = tracks.map (·.id) ∧
+    rows.map (fun e => some e.trackIndex) = tracks.map (·.trackIndex) ∧
+    rows.length = tracks.length ∧
+    ((tracks.map (·.id)).Nodup → (rows.map (·.audioTrackUID)).Nodup) := by
+  obtain ⟨h1, h2⟩ := mapM_entryOf_uids tracks rows h
+  refine ⟨h1, h2, ?_, fun hn => by rw [h1]; exact hn⟩
+  have := congrArg List.length h1
+  simpa using this
+
+/-- **Conflicts between AXML and CHNA are rejected** with the error of the code.  For a document with distinct UIDs
+and a chunk whose first row names the track UID `t` (UIDs compared upper-cased): another track index is the
+`AssertionError`; with a compatible index, an audioChannelFormat in AXML against a CHNA reference of the other kind
+or with another id is the "CHNA entry references … but AXML references …" `Exception` (symmetrically for an
+audioTrackFormat), a track UID linked to both kinds is the "linked to both" `Exception`, and — the format reference
+agreeing — another audioPackFormat id is the "does not match value in AXML" `Exception`.  Nothing is loaded. -/
+theorem chna_conflict_rejected (lookup : Bytes → Option Bytes) (tracks : List TrackUID)
+    (hnd : (tracks.map fun t => up t.id).Nodup) (j : Nat) (t : TrackUID) (e : Entry) (rest : List Entry)
+    (ht : tracks[j]? = some t) (hu : up e.audioTrackUID = up t.id) :
+    (∀ i, t.trackIndex = some i → i ≠ e.trackIndex → loadChna lookup tracks (e :: rest) = .error .indexMismatch) ∧
+    ((t.trackIndex = none ∨ t.trackIndex = some e.trackIndex) →
+      ((∃ a b, t.audioTrackFormat = some a ∧ t.audioChannelFormat = some b) →
+        loadChna lookup tracks (e :: rest) = .error .bothLinked) ∧
+      (∀ c, t.audioChannelFormat = some c → t.audioTrackFormat = none →
+        ¬ (acPrefix.isPrefixOf e.audioTrackFormatIDRef = true ∧ up e.audioTrackFormatIDRef = up c) →
+        loadChna lookup tracks (e :: rest) = .error .refConflict) ∧
+      (∀ r, t.audioTrackFormat = some r → t.audioChannelFormat = none →
+        ¬ (acPrefix.isPrefixOf e.audioTrackFormatIDRef = false ∧ up e.audioTrackFormatIDRef = up r) →
+        loadChna lookup tracks (e :: rest) = .error .refConflict) ∧
+      (∀ c p q, t.audioChannelFormat = some c → t.audioTrackFormat = none →
+        acPrefix.isPrefixOf e.audioTrackFormatIDRef = true → up e.audioTrackFormatIDRef = up c →
+        e.audioPackFormatIDRef = some p → t.audioPackFormat = some q → up q ≠ up p →
+        loadChna lookup tracks (e :: rest) = .error .packConflict) ∧
+      (∀ r p q, t.audioTrackFormat = some r → t.audioChannelFormat = none →
+        acPrefix.isPrefixOf e.audioTrackFormatIDRef = false → up e.audioTrackFormatIDRef = up r →
+        e.audioPackFormatIDRef = some p → t.audioPackFormat = some q → up q ≠ up p →
+        loadChna lookup tracks (e :: rest) = .error .packConflict)) := by
+  have lift := fun x (h : loadInto t e = .error x) => load_first_row_error lookup tracks hnd j t e rest x ht hu h
+  obtain ⟨h1, h2⟩ := loadInto_conflicts t e
+  refine ⟨fun i hi hne => lift _ (h1 i hi hne), fun hidx => ?_⟩
+  obtain ⟨a, b, c, d, f⟩ := h2 hidx
+  exact ⟨fun h => lift _ (a h), fun x h1 h2 h3 => lift _ (b x h1 h2 h3), fun x h1 h2 h3 => lift _ (c x h1 h2 h3),
+    fun x p q h1 h2 h3 h4 h5 h6 h7 => lift _ (d x p q h1 h2 h3 h4 h5 h6 h7),
+    fun x p q h1 h2 h3 h4 h5 h6 h7 => lift _ (f x p q h1 h2 h3 h4 h5 h6 h7)⟩
+
+/-- non-vacuity of `chna_conflict_rejected`: the example document against a row that names another channel format -/
+example : loadChna exLookup (exTracks.map (forget true true))
+    [⟨2, asciiBytes "ATU_00000001", asciiBytes "AC_00031002", none⟩] = .error .refConflict := by decide
+
+/-- **No AXML.**  Every row of a well-formed chunk (`WFChunk`: distinct UIDs, none reserved, references that name
+elements of the document, i.e. common definitions) yields an audioTrackUID with exactly the row's data, in row order:
+the UID (upper-cased), the index, the reference as audioChannelFormat iff the CHNA string starts with `AC_` (otherwise
+as audioTrackFormat), the pack format if the row has one. -/
+theorem chna_only_document (lookup : Bytes → Option Bytes) (rows : List Entry) (h : WFChunk lookup rows) :
+    loadChna lookup [] rows = .ok (rows.map (trackOf lookup)) := chna_only lookup rows h
+
+example : WFChunk exLookup [⟨7, asciiBytes "ATU_00000009", asciiBytes "AT_0001000A_01", some (asciiBytes "AP_00031001")⟩] := by
+  refine ⟨by decide, ?_, ?_, ?_⟩
+  · intro e he; simp only [List.mem_singleton] at he; subst he; decide
+  · intro e he; simp only [List.mem_singleton] at he; subst he; exact ⟨asciiBytes "AT_0001000a_01", by decide⟩
+  · intro e he p hp; simp only [List.mem_singleton] at he; subst he
+    injection hp with hp; subst hp; exact ⟨asciiBytes "AP_00031001", by decide⟩
+
+/-- a UID present in the AXML but absent from CHNA is not an error: the track UID keeps `trackIndex = None` -/
+theorem chna_absent_uid_untouched (lookup : Bytes → Option Bytes) (tracks : List TrackUID)
+    (hnd : (tracks.map fun t => up t.id).Nodup) (hs : ∀ t ∈ tracks, up t.id ≠ ChnaTransfer.silentUID)
+    (hp : ∀ t ∈ tracks, t.audioTrackFormatIDRef = none ∧ t.audioChannelFormatIDRef = none ∧ t.audioPackFormatIDRef = none) :
+    loadChna lookup tracks [] = .ok tracks := load_no_rows lookup tracks hnd hs hp
+
+/-- `validate_trackIndex` accepts exactly the documents in which every track index that is present is at most the
+channel count (nothing is said about a lower bound: see `chna_excluded_points_transfer`) -/
+theorem chna_validate_trackIndex (tracks : List TrackUID) (n : Nat) :
+    validateTrackIndex tracks n = .ok () ↔ ∀ t ∈ tracks, ∀ i, t.trackIndex = some i → i ≤ n :=
+  validateTrackIndex_ok_iff tracks n
+
+/-- **The chunk.**  `numTracks ≤ numUIDs`; and for fewer than 65 536 well-formed rows (`WFEntry`) the chunk data of
+`ChnaChunk.asByteArray` is read back by `_read_chna_chunk` as the same rows (composition with `chna_entry_roundtrip`:
+`AC_` references are padded with `_00` on disk and stripped again). -/
+theorem chna_chunk_roundtrip (rows : List Entry) (hlen : rows.length < 65536) (hwf : ∀ e ∈ rows, WFEntry e) :
+    numTracks rows ≤ numUIDs rows ∧ ∃ bs, encodeChunk rows = some bs ∧ decodeChunk bs = .ok rows :=
+  ⟨numTracks_le_numUIDs rows, chunk_roundtrip rows hlen (fun e he => chna_entry_roundtrip e (hwf e he))⟩
+
+/-- the whole way: document → rows → chunk bytes → rows → fresh document -/
+theorem chna_transfer_through_bytes (lookup : Bytes → Option Bytes) (tracks : List TrackUID) (h : WFDoc lookup tracks)
+    (rows : List Entry) (hrows : populateChna tracks = .ok rows) (hlen : tracks.length < 65536)
+    (hwf : ∀ e ∈ rows, WFEntry e) (kf kp : TrackUID → Bool) :
+    ∃ bs, encodeChunk rows = some bs ∧
+      (decodeChunk bs).toOption.map (loadChna lookup (tracks.map fun t => forget (kf t) (kp t) t)) = some (.ok tracks) := by
+  obtain ⟨rows', hr', hload⟩ := (chna_transfer_roundtrip lookup).1 tracks h
+  rw [hrows] at hr'; injection hr' with hr'; subst hr'
+  have hl : rows.length < 65536 := by rw [(chna_rows_in_document_order tracks rows hrows).2.2.1]; exact hlen
+  obtain ⟨_, bs, he, hd⟩ := chna_chunk_roundtrip rows hl hwf
+  exact ⟨bs, he, by simp [hd, Except.toOption, hload kf kp]⟩
+
+/-- **Excluded points of the transfer**, as the code behaves (each also run on the real code by the harness):
+a track UID without index makes `populate_chna_chunk` raise (nothing is written, not "only those with an index");
+a CHNA reference with a lower-case `ac_` prefix is stored as *audioTrackFormat* (the kind test is case-sensitive, the
+lookup is not); two rows for the same known UID: the last reference wins silently; a UID unknown to the document that
+occurs in two rows creates two track UIDs and is then an `AdmIDError`; the reserved UID in a row is refused; track
+index 0 passes `validate_trackIndex`. -/
+theorem chna_excluded_points_transfer :
+    populateChna (exTracks.map (forget true true)) = .error .noTrackIndex ∧
+    loadChna exLookup [] [⟨1, asciiBytes "ATU_00000001", asciiBytes "ac_00031001", none⟩]
+      = .ok [⟨asciiBytes "ATU_00000001", some 1, some (asciiBytes "AC_00031001"), none, none, none, none, none⟩] ∧
+    loadChna exLookup [⟨asciiBytes "ATU_00000001", none, none, none, none, none, none, none⟩]
+        [⟨1, asciiBytes "ATU_00000001", asciiBytes "AC_00031001", none⟩,
+         ⟨1, asciiBytes "ATU_00000001", asciiBytes "AC_00031002", none⟩]
+      = .ok [⟨asciiBytes "ATU_00000001", some 1, none, some (asciiBytes "AC_00031002"), none, none, none, none⟩] ∧
+    loadChna exLookup [] [⟨1, asciiBytes "ATU_00000005", asciiBytes "AC_00031001", none⟩,
+        ⟨2, asciiBytes "atu_00000005", asciiBytes "AC_00031001", none⟩] = .error .duplicateID ∧
+    loadChna exLookup [] [⟨1, asciiBytes "ATU_00000000", asciiBytes "AC_00031001", none⟩] = .error .silentUID ∧
+    validateTrackIndex [⟨asciiBytes "ATU_00000001", some 0, none, none, none, none, none, none⟩] 1 = .ok () := by
+  refine ⟨by decide, by decide, by decide, by decide, by decide, by decide⟩
+
+end Transfer
+
+section Refs
+open Earverif.AdmRefs
+
+/-! ## The id map and reference resolution (`adm.py`, `lazy_lookup_references` of the element classes) -/
+
+/-- **`lookup_element` is unique on distinct ids.**  If the (upper-cased) ids of the elements that have one are
+pairwise distinct, `lookup_element(key)` returns `e` iff `e` is an element of the document whose id matches `key`
+case-insensitively — the unique such element; it raises `KeyError` iff no element matches. -/
+theorem lookup_unique {ι : Type} [DecidableEq ι] (up : ι → ι) (els : List (Elem ι)) (h : (keys up els).Nodup)
+    (key : ι) :
+    (∀ e, lookup up els key = some e ↔ e ∈ els ∧ e.id.map up = some (up key)) ∧
+    (lookup up els key = none ↔ ∀ e ∈ els, e.id.map up ≠ some (up key)) :=
+  ⟨fun e => lookup_eq_some_iff up els h key e, lookup_eq_none_iff up els key⟩
+
+/-- **A repeated id within a class is rejected with `AdmIDError`** by `lazy_lookup_references` (not at `addAudio…`
+time, not by `lookup_element`), whichever class it is in and whatever else the document contains — provided no two
+*common definitions* share an id (that is the `AssertionError` of the code).  The references are never resolved to one
+of the two elements: nothing is resolved. -/
+theorem duplicate_id_rejected {ι : Type} [DecidableEq ι] (up : ι → ι) (a : ADM ι)
+    (hc : ∀ l ∈ a.lists, CommonsDistinct up l) (hd : ∃ l ∈ a.lists, HasDuplicate up l) :
+    lazyLookupReferences up a = .error .admIDError := by
+  unfold lazyLookupReferences
+  simp [dedupAll_dup up a hc hd, bind, Except.bind]
+
+def exElem (oid : Nat) (c : Cls) (id : Nat) (fields : List (AdmRefs.Field Nat)) : Elem Nat :=
+  ⟨oid, c, some id, false, fields, none, [], []⟩
+
+/-- an audioProgramme → audioContent → audioObject chain; the object refers to itself as a complementary object and to
+the silent track -/
+def exADM : ADM Nat :=
+  { ADM.empty with
+    programmes := [exElem 1 .programme 100 [⟨"audioContents", .plain, some [some 200], []⟩]]
+    contents := [exElem 2 .content 200 [⟨"audioObjects", .plain, some [some 300], []⟩]]
+    objects := [exElem 3 .object 300 [⟨"audioTrackUIDs", .silentOK, some [none], []⟩,
+      ⟨"audioComplementaryObjects", .plain, some [some 300], []⟩]] }
+
+/-- non-vacuity of `duplicate_id_rejected`: the example document with its audioContent added twice -/
+example : (∀ l ∈ (exADM.add (exElem 9 .content 200 [])).lists, CommonsDistinct id l) ∧
+    ∃ l ∈ (exADM.add (exElem 9 .content 200 [])).lists, HasDuplicate id l := by
+  constructor
+  · intro l hl k
+    simp only [ADM.lists, exADM, ADM.add, exElem, ADM.empty, List.mem_cons, List.not_mem_nil, or_false] at hl
+    rcases hl with rfl | rfl | rfl | rfl | rfl | rfl | rfl | rfl <;> simp [List.filter_cons] <;>
+      (repeat' split) <;> simp
+  · refine ⟨_, List.mem_cons_of_mem _ (List.mem_cons_self), 0, 1, _, _, 200, by omega, rfl, rfl, rfl, rfl, rfl, rfl⟩
+
+/-- **The same id in two classes is NOT rejected** (the duplicate pass works list by list): the document is
+resolved, and `lookup_element` answers the first element in class order — here the audioPackFormat, although the id is
+also that of an audioChannelFormat.  (Outside the property's quantifier — generated ids carry their class prefix —
+but recorded from the real code on every run.) -/
+theorem duplicate_across_classes_not_rejected :
+    let a : ADM Nat := { ADM.empty with packFormats := [exElem 1 .pack 7 []], channelFormats := [exElem 2 .channel 7 []] }
+    (lazyLookupReferences id a).toOption.isSome = true ∧ (lookup id a.elements 7).map (·.cls) = some .pack := by
+  decide
+
+/-- **Resolution is total on a closed document, and stores the element whose id was written.**  Let `a'` be the
+document after the duplicate pass.  If (`Static`) the references meet the conditions under which the loop raises
+nothing but `KeyError` — `None` only in `audioTrackUIDRef`, `decodePackFormatIDRef` naming audioPackFormats, the
+stream ↔ track links consistent with one stream `σ t` per audioTrackFormat `t` —, (`AvsOK`) alternativeValueSet ids are
+distinct and every `alternativeValueSetIDRef` names one, and (`Closed`) every id in every other `IDRef` attribute names
+an element of the document (common definitions included: they are in the same lists), then `lazy_lookup_references`
+raises nothing; the chain keeps its length; and every plain reference attribute (contents, objects, packs, channels,
+track UIDs incl. the silent one, complementary objects, input / output packs, stream → channel / pack, track UID →
+track / channel / pack, Matrix coefficient inputs and outputChannelFormat) that had an `IDRef` list now has
+`IDRef = None` and holds, id by id, the element `lookup_element` finds for that id (`None` stays `None`); an attribute
+whose `IDRef` was `None` is unchanged. -/
+theorem resolve_total_on_closed {ι : Type} [DecidableEq ι] (up : ι → ι) (σ : Oid → Oid) (a a' : ADM ι)
+    (hd : dedupAll up a = .ok a') (hS : Static up σ a'.elements) (hA : AvsOK up a'.elements)
+    (hC : Closed up a'.elements) :
+    ∃ r, lazyLookupReferences up a = .ok r ∧ r.elements.length = a'.elements.length ∧
+      ∀ t f, fieldAt a'.elements t = some f → (f.mode = .plain ∨ f.mode = .silentOK) →
+        ∃ f', fieldAt r.elements t = some f' ∧ f'.name = f.name ∧ f'.mode = f.mode ∧
+          (∀ refs, f.pending = some refs → f'.pending = none ∧ f'.resolved = resolvedValue up a'.elements refs) ∧
+          (f.pending = none → f' = f) := by
+  obtain ⟨st', hs, hlen, hspec⟩ := resolveChain_closed up σ a'.elements hS hA hC
+  refine ⟨rebuild a' st', ?_, by rw [rebuild_elements]; exact hlen, ?_⟩
+  · unfold lazyLookupReferences
+    simp [hd, hs, bind, Except.bind, pure, Except.pure]
+  · rw [rebuild_elements]; exact hspec
+
+/-- **A dangling reference is rejected with `KeyError`.**  If, after the duplicate pass, some (non-alternativeValueSet)
+`IDRef` attribute contains an id that no element of the document has, `lazy_lookup_references` raises `KeyError` —
+under `Static`, i.e. when the other two exceptions of the loop (`AttributeError` for a `None` / wrong-class link target,
+`AdmError` for a track format linked to two streams) are excluded for the references that do resolve. -/
+theorem resolve_dangling_rejected {ι : Type} [DecidableEq ι] (up : ι → ι) (σ : Oid → Oid) (a a' : ADM ι)
+    (hd : dedupAll up a = .ok a') (hS : Static up σ a'.elements)
+    (hD : ∃ t, DanglingAt up a'.elements a'.elements t) :
+    lazyLookupReferences up a = .error .keyError := by
+  unfold lazyLookupReferences
+  simp [hd, resolveChain_dangling up σ a'.elements hS hD, bind, Except.bind]
+
+/-- non-vacuity of the hypotheses of `resolve_total_on_closed` (the example chain), and of
+`resolve_dangling_rejected` (the same document with a content reference to the unknown id 201) -/
+example : dedupAll id exADM = .ok exADM ∧ Static id (fun _ => 0) exADM.elements ∧ AvsOK id exADM.elements ∧
+    Closed id exADM.elements ∧
+    (∃ t, DanglingAt id (exADM.add (exElem 4 .programme 101 [⟨"audioContents", .plain, some [some 201], []⟩])).elements
+      (exADM.add (exElem 4 .programme 101 [⟨"audioContents", .plain, some [some 201], []⟩])).elements t) := by
+  have hel : exADM.elements = [exElem 1 .programme 100 [⟨"audioContents", .plain, some [some 200], []⟩],
+      exElem 2 .content 200 [⟨"audioObjects", .plain, some [some 300], []⟩],
+      exElem 3 .object 300 [⟨"audioTrackUIDs", .silentOK, some [none], []⟩,
+        ⟨"audioComplementaryObjects", .plain, some [some 300], []⟩]] := rfl
+  refine ⟨?_, ?_, ?_, ?_, ?_⟩
+  · apply dedupAll_of_distinct
+    intro l hl
+    simp only [ADM.lists, exADM, ADM.empty, List.mem_cons, List.not_mem_nil, or_false] at hl
+    rcases hl with rfl | rfl | rfl | rfl | rfl | rfl | rfl | rfl <;> exact ⟨by decide, by decide⟩
+  · apply static_of_forall
+    · intro e he s hs
+      rw [hel] at he
+      simp only [List.mem_cons, List.not_mem_nil, or_false] at he
+      rcases he with rfl | rfl | rfl <;> simp [exElem] at hs
+    · intro e he f hf hm refs hp r hr
+      rw [hel] at he
+      simp only [List.mem_cons, List.not_mem_nil, or_false] at he
+      rcases he with rfl | rfl | rfl <;> simp only [exElem, List.mem_cons, List.not_mem_nil, or_false] at hf
+      · subst hf; simp only [Option.some.injEq] at hp; subst hp
+        simp only [List.mem_singleton] at hr; subst hr
+        intro i tgt _ _; simp
+      · subst hf; simp only [Option.some.injEq] at hp; subst hp
+        simp only [List.mem_singleton] at hr; subst hr
+        intro i tgt _ _; simp
+      · rcases hf with rfl | rfl <;> simp only [Option.some.injEq] at hp <;> subst hp <;>
+          simp only [List.mem_singleton] at hr <;> subst hr
+        · rfl
+        · intro i tgt _ _; simp
+  · refine ⟨⟨[], by decide⟩, ?_⟩
+    intro tbl _ i e he f hf hm
+    have he' := List.mem_of_getElem? he
+    rw [hel] at he'
+    simp only [List.mem_cons, List.not_mem_nil, or_false] at he'
+    rcases he' with rfl | rfl | rfl <;> simp only [exElem, List.mem_cons, List.not_mem_nil, or_false] at hf
+    · subst hf; cases hm
+    · subst hf; cases hm
+    · rcases hf with rfl | rfl <;> cases hm
+  · apply closed_of_forall
+    intro e he f hf _ refs hp k hk
+    rw [hel] at he
+    simp only [List.mem_cons, List.not_mem_nil, or_false] at he
+    rcases he with rfl | rfl | rfl <;> simp only [exElem, List.mem_cons, List.not_mem_nil, or_false] at hf
+    · subst hf; simp only [Option.some.injEq] at hp; subst hp
+      simp only [List.mem_singleton, Option.some.injEq] at hk; subst hk; exact ⟨1, by decide⟩
+    · subst hf; simp only [Option.some.injEq] at hp; subst hp
+      simp only [List.mem_singleton, Option.some.injEq] at hk; subst hk; exact ⟨2, by decide⟩
+    · rcases hf with rfl | rfl <;> simp only [Option.some.injEq] at hp <;> subst hp <;>
+        simp only [List.mem_singleton, Option.some.injEq] at hk
+      · cases hk
+      · subst hk; exact ⟨2, by decide⟩
+  · exact ⟨(1, 0), ⟨"audioContents", .plain, some [some 201], []⟩, [some 201], rfl, by decide, rfl, some 201,
+      by simp, 201, rfl, by decide⟩
+
+end Refs
+
+section RefsDoc
+open Earverif.AdmRefs Earverif.AdmRefsDoc Earverif.XmlCodec Earverif.XmlBlocks Earverif.XmlElements
+
+/-- parse what `to_xml` wrote for each element of one class -/
+def parseWritten (ps : List (Property XV)) (cdflt : Obj XV) (name : String) (objs : List (Obj XV)) :
+    Option (List (Obj XV)) :=
+  objs.mapM fun o => parse ps cdflt (toXml ps name o)
+
+/-- `adm_to_xml` followed by `parse_adm_elements` into a document that holds the common definitions `cd`: every main
+element written by the `to_xml` of its class and parsed by the parser that the regenerated handler table declares for
+the class; the parsed arguments are then made into elements and added (`admOfObjs`).  `none` = some parser raises. -/
+def admOfParsed (v2 : Bool) (cd : ADM String) (d : Document) : Option (ADM String) := do
+  let ps ← parseWritten (propsX v2 (rowsOf v2 "audioProgramme")) programmeDefaults "audioProgramme" (d.programmes.map (·.toObj))
+  let cs ← parseWritten (propsX v2 (rowsOf v2 "audioContent")) contentDefaults "audioContent" (d.contents.map (·.toObj))
+  let os ← parseWritten (propsX v2 (rowsOf v2 "audioObject")) objectDefaults "audioObject" (d.objects.map (·.toObj))
+  let pks ← parseWritten (propsX v2 (rowsOf v2 "audioPackFormat")) packDefaults "audioPackFormat" (d.packFormats.map (·.toObj))
+  let chs ← parseWritten (propsX v2 (rowsOf v2 "audioChannelFormat")) channelDefaults "audioChannelFormat" (d.channelFormats.map (·.toObj))
+  let ss ← parseWritten (propsX v2 (rowsOf v2 "audioStreamFormat")) streamDefaults "audioStreamFormat" (d.streamFormats.map (·.toObj))
+  let ts ← parseWritten (propsX v2 (rowsOf v2 "audioTrackFormat")) noneDefaults "audioTrackFormat" (d.trackFormats.map (·.toObj))
+  let us ← parseWritten (propsX v2 (rowsOf v2 "audioTrackUID")) noneDefaults "audioTrackUID" (d.trackUIDs.map (·.toObj))
+  pure (admOfObjs cd ps cs os pks chs ss ts us)
+
+theorem parseWritten_of_roundtrips {α : Type} (ps : List (Property XV)) (cdflt : Obj XV) (name : String)
+    (toObj : α → Obj XV) (l : List α) (h : ∀ x ∈ l, RoundTrips ps cdflt name (toObj x)) :
+    parseWritten ps cdflt name (l.map toObj) = some (l.map toObj) := by
+  unfold parseWritten
+  induction l with
+  | nil => rfl
+  | cons x xs ih =>
+    simp only [List.map_cons, List.mapM_cons, (h x (by simp)).1, ih (fun y hy => h y (by simp [hy])), bind,
+      Option.bind, pure]
+
+/-- **Write → parse → resolve preserves the reference structure.**  For a `DocValid` document `d` (BS.2076-1 or -2)
+added to common definitions `cd`:
+(1) *composition with `C08_roundtrip_model`*: the document obtained by writing every main element and parsing it back
+is the document itself — same elements, same ids, the same id in every `…IDRef` argument (`admOfParsed = admOfDoc`);
+(2) hence, when the ids of each class (common definitions included) are pairwise distinct and the document is
+`Static` / `AvsOK` / `Closed`, `lazy_lookup_references` of the parsed document raises nothing and every plain
+reference attribute holds, id by id, the element that `lookup_element` finds for the id that was written —
+by `lookup_unique` THE element of the document with that id. -/
+theorem resolve_then_ids_roundtrip (v2 : Bool) (d : Document) (hv : DocValid v2 d) (cd : ADM String) (σ : Oid → Oid) :
+    admOfParsed v2 cd d = some (admOfDoc cd d) ∧
+    ((∀ l ∈ (admOfDoc cd d).lists, DistinctIds upStr l) → Static upStr σ (admOfDoc cd d).elements →
+      AvsOK upStr (admOfDoc cd d).elements → Closed upStr (admOfDoc cd d).elements →
+      ∃ r, (admOfParsed v2 cd d).map (lazyLookupReferences upStr) = some (.ok r) ∧
+        ∀ t f, fieldAt (admOfDoc cd d).elements t = some f → (f.mode = .plain ∨ f.mode = .silentOK) →
+          ∃ f', fieldAt r.elements t = some f' ∧ f'.name = f.name ∧
+            ∀ refs, f.pending = some refs → f'.pending = none ∧
+              f'.resolved = refs.map (fun r => r.bind fun k => (lookup upStr (admOfDoc cd d).elements k).map (·.oid))) := by
+  obtain ⟨h1, h2, h3, h4, h5, h6, h7, h8⟩ := C08_roundtrip_model v2 d hv
+  have hparsed : admOfParsed v2 cd d = some (admOfDoc cd d) := by
+    unfold admOfParsed admOfDoc
+    simp only [parseWritten_of_roundtrips _ _ _ Programme.toObj d.programmes h1,
+      parseWritten_of_roundtrips _ _ _ Content.toObj d.contents h2,
+      parseWritten_of_roundtrips _ _ _ AObject.toObj d.objects h3,
+      parseWritten_of_roundtrips _ _ _ PackFormat.toObj d.packFormats h4,
+      parseWritten_of_roundtrips _ _ _ ChannelFormat.toObj d.channelFormats h5,
+      parseWritten_of_roundtrips _ _ _ StreamFormat.toObj d.streamFormats h6,
+      parseWritten_of_roundtrips _ _ _ TrackFormat.toObj d.trackFormats h7,
+      parseWritten_of_roundtrips _ _ _ TrackUID.toObj d.trackUIDs h8, bind, Option.bind, pure]
+  refine ⟨hparsed, fun hdist hS hA hC => ?_⟩
+  obtain ⟨r, hr, _, hspec⟩ := resolve_total_on_closed upStr σ (admOfDoc cd d) (admOfDoc cd d)
+    (dedupAll_of_distinct upStr _ hdist) hS hA hC
+  refine ⟨r, by rw [hparsed]; simp [hr], ?_⟩
+  intro t f hf hm
+  obtain ⟨f', hf', hn, _, hres, _⟩ := hspec t f hf hm
+  exact ⟨f', hf', hn, fun refs hp => hres refs hp⟩
+
+/-- what the reference attributes of the parsed elements hold: exactly the ids of the document (shown for the classes
+with list / single / silent-track / link references; `audioChannelFormat` carries the Matrix block references) -/
+theorem parsed_reference_fields (pos : Nat) :
+    (∀ p : Programme, (elemOfObj .programme pos p.toObj).id = some p.id ∧
+      (elemOfObj .programme pos p.toObj).fields =
+        [⟨"audioContents", .plain, some (p.audioContents.map some), []⟩,
+         ⟨"alternativeValueSets", .avs, some (p.alternativeValueSets.map some), []⟩]) ∧
+    (∀ o : AObject, (elemOfObj .object pos o.toObj).fields =
+        [⟨"audioPackFormats", .plain, some (o.audioPackFormats.map some), []⟩,
+         ⟨"audioTrackUIDs", .silentOK, some o.audioTrackUIDs, []⟩,
+         ⟨"audioObjects", .plain, some (o.audioObjects.map some), []⟩,
+         ⟨"audioComplementaryObjects", .plain, some (o.audioComplementaryObjects.map some), []⟩]) ∧
+    (∀ u : TrackUID, (elemOfObj .trackUID pos u.toObj).fields =
+        [⟨"audioTrackFormat", .plain, u.audioTrackFormat.map fun s => [some s], []⟩,
+         ⟨"audioChannelFormat", .plain, u.audioChannelFormat.map fun s => [some s], []⟩,
+         ⟨"audioPackFormat", .plain, u.audioPackFormat.map fun s => [some s], []⟩]) ∧
+    (∀ s : StreamFormat, (elemOfObj .stream pos s.toObj).fields =
+        [⟨"audioChannelFormat", .plain, s.audioChannelFormat.map fun x => [some x], []⟩,
+         ⟨"audioPackFormat", .plain, s.audioPackFormat.map fun x => [some x], []⟩,
+         ⟨"audioTrackFormats", .linkTracks, some (s.audioTrackFormats.map some), []⟩]) := by
+  refine ⟨?_, ?_, ?_, ?_⟩
+  · intro p
+    simp [elemOfObj, fieldsOf, classFields, idrefArg, Programme.toObj, pendOfVal, strs, refOfXV, List.map_map,
+      Function.comp_def]
+  · intro o
+    simp [elemOfObj, fieldsOf, classFields, idrefArg, AObject.toObj, pendOfVal, strs, refOfXV, List.map_map,
+      Function.comp_def]
+    conv_rhs => rw [← List.map_id o.audioTrackUIDs]
+    apply List.map_congr_left
+    intro x _
+    cases x <;> rfl
+  · intro u
+    simp [elemOfObj, fieldsOf, classFields, idrefArg, TrackUID.toObj, pendOfVal, optStrV]
+    refine ⟨?_, ?_, ?_⟩
+    · cases u.audioTrackFormat <;> rfl
+    · cases u.audioChannelFormat <;> rfl
+    · cases u.audioPackFormat <;> rfl
+  · intro s
+    simp [elemOfObj, fieldsOf, classFields, idrefArg, StreamFormat.toObj, pendOfVal, strs, refOfXV, List.map_map,
+      Function.comp_def, optStrV]
+    refine ⟨?_, ?_⟩
+    · cases s.audioChannelFormat <;> rfl
+    · cases s.audioPackFormat <;> rfl
+
+end RefsDoc
+
 /-! ## Summary -/
 
-/-- **C08, partial.**  The conjunction of the leaf and ID claims above and the class-level round trips of the XML
-layer for both versions (document level, `C08_roundtrip_model`).  Still missing for the full property, and covered
-only by the generated-document search of the harness: five-decimal printing / reading of arbitrary doubles (values are
-on the 1e-5 grid), lxml (the tree is abstract: no byte level), reference resolution and duplicate-id rejection in
-`adm.py`, the transfer between audioTrackUIDs and CHNA rows (`chna.py`; the 40-byte row itself is proved). -/
+/-- **C08, partial.**  The conjunction of the leaf and ID claims above, the class-level round trips of the XML
+layer for both versions (document level, `C08_roundtrip_model`), the CHNA <-> audioTrackUID transfer (both directions,
+CHNA-only documents) and the id map / reference resolution (duplicate ids rejected, closed documents resolved,
+dangling references rejected, write → parse gives back the same ids in every reference attribute).  Still missing for
+the full property, and covered only by the generated-document search of the harness: five-decimal printing / reading
+of arbitrary doubles (values are on the 1e-5 grid), lxml and the byte level of AXML (the tree is abstract), attrs
+validators. -/
 theorem C08_partial :
     (∀ (q : ℚ), 0 ≤ q → q < 360000 → ExactDecimal q → ∀ af, ∃ s, unparseTime af (.dec q) = .ok s ∧
         parseTime s = some (.dec q) ∧ parseTimeV1 s = some (.dec q)) ∧
@@ -862,12 +1312,41 @@ theorem C08_partial :
         RoundTrips (Earverif.XmlElements.propsX v2 (Earverif.XmlElements.rowsOf v2 "audioTrackFormat"))
           Earverif.XmlBlocks.noneDefaults "audioTrackFormat" t.toObj) ∧
       (∀ u ∈ d.trackUIDs, RoundTrips (Earverif.XmlElements.propsX v2 (Earverif.XmlElements.rowsOf v2 "audioTrackUID"))
-        Earverif.XmlBlocks.noneDefaults "audioTrackUID" u.toObj)) :=
+        Earverif.XmlBlocks.noneDefaults "audioTrackUID" u.toObj)) ∧
+    -- CHNA <-> audioTrackUID transfer: document → rows → any copy without track information → the document
+    (∀ (lookup : Chna.Bytes → Option Chna.Bytes) (tracks : List ChnaTransfer.TrackUID), ChnaTransfer.WFDoc lookup tracks →
+      ∃ rows, ChnaTransfer.populateChna tracks = .ok rows ∧ ∀ kf kp : ChnaTransfer.TrackUID → Bool,
+        ChnaTransfer.loadChna lookup (tracks.map fun t => ChnaTransfer.forget (kf t) (kp t) t) rows = .ok tracks) ∧
+    -- … and CHNA-only documents: every row yields exactly its audioTrackUID
+    (∀ (lookup : Chna.Bytes → Option Chna.Bytes) (rows : List Chna.Entry), ChnaTransfer.WFChunk lookup rows →
+      ChnaTransfer.loadChna lookup [] rows = .ok (rows.map (ChnaTransfer.trackOf lookup))) ∧
+    -- a repeated id within a class is an AdmIDError
+    (∀ (a : AdmRefs.ADM String), (∀ l ∈ a.lists, AdmRefs.CommonsDistinct AdmRefs.upStr l) →
+      (∃ l ∈ a.lists, AdmRefs.HasDuplicate AdmRefs.upStr l) →
+      AdmRefs.lazyLookupReferences AdmRefs.upStr a = .error .admIDError) ∧
+    -- closed documents are resolved, dangling references are a KeyError
+    (∀ (σ : AdmRefs.Oid → AdmRefs.Oid) (a a' : AdmRefs.ADM String), AdmRefs.dedupAll AdmRefs.upStr a = .ok a' →
+      AdmRefs.Static AdmRefs.upStr σ a'.elements →
+      (AdmRefs.AvsOK AdmRefs.upStr a'.elements → AdmRefs.Closed AdmRefs.upStr a'.elements →
+        ∃ r, AdmRefs.lazyLookupReferences AdmRefs.upStr a = .ok r) ∧
+      ((∃ t, AdmRefs.DanglingAt AdmRefs.upStr a'.elements a'.elements t) →
+        AdmRefs.lazyLookupReferences AdmRefs.upStr a = .error .keyError)) ∧
+    -- write → parse gives the document back at id level (every …IDRef argument holds the id that was written)
+    (∀ (v2 : Bool) (d : Earverif.XmlElements.Document), DocValid v2 d → ∀ cd : AdmRefs.ADM String,
+      admOfParsed v2 cd d = some (AdmRefsDoc.admOfDoc cd d)) :=
   ⟨time_roundtrip_decimal, time_roundtrip_fractional,
     fun x o h ht => ⟨(ids_injective x o h ht).2.2.1, (ids_injective x o h ht).2.2.2.2.2.2.2.2.2,
       ids_not_reserved x o h⟩,
     chna_entry_roundtrip,
     fun v2 name b hv => (Earverif.XmlBlocks.objectsBlock_roundtrip v2 name b hv).1,
-    C08_roundtrip_model⟩
+    C08_roundtrip_model,
+    fun lookup => (chna_transfer_roundtrip lookup).1,
+    chna_only_document,
+    fun a hc hd => duplicate_id_rejected AdmRefs.upStr a hc hd,
+    fun σ a a' hd hS => ⟨fun hA hC => by
+        obtain ⟨r, hr, _⟩ := resolve_total_on_closed AdmRefs.upStr σ a a' hd hS hA hC
+        exact ⟨r, hr⟩,
+      fun hD => resolve_dangling_rejected AdmRefs.upStr σ a a' hd hS hD⟩,
+    fun v2 d hv cd => (resolve_then_ids_roundtrip v2 d hv cd id).1⟩
 
 end Earverif.C08
